@@ -18,7 +18,7 @@ def model_level_cases():
     from sfc_models.sector import Sector
     bad = []
     n = 0
-    for T, form, nval, icv in itertools.product((0, 1, 3), ('list', 'tuple', 'str', 'repeat-str'), (1, 2, 4, 6), (7.25, 0.0, -3.0, 1 / 3., 0.1 + 0.2, 1e-9, -123456.7890123, 2.5e+17)):
+    for T, form, nval, icv in itertools.product((0, 1, 3), ('list', 'tuple', 'str', 'repeat-str', 'expression-str'), (1, 2, 4, 6), (7.25, 0.0, -3.0, 1 / 3., 0.1 + 0.2, 1e-9, -123456.7890123, 2.5e+17)):
         # values with short and with long decimal expansions (the API turns them into text on the way to the solver)
         vals = [1.5 + 0.25 * i + (i % 2) / 3. + (i % 3) * 1e-9 for i in range(nval)]
         m = Model()
@@ -27,7 +27,10 @@ def model_level_cases():
         s.AddVariable('G', 'exo', '0.0')
         s.AddVariable('Y', 'endo', 'G + 1')
         s.AddVariable('LAGY', 'lag', 'Y(k-1)')
-        spec = {'list': list(vals), 'tuple': tuple(vals), 'str': repr(vals), 'repeat-str': '[%r,]*%d' % (vals[0], nval)}[form]
+        # 'expression-str': text that starts with a letter (the Model writes its marker word directly in front of the text).  A bare number as text
+        # is documented as unsupported by Model.AddExogenous (the tokenizer splits 'EXOGENOUS1.5') and is not in the family.
+        spec = {'list': list(vals), 'tuple': tuple(vals), 'str': repr(vals), 'repeat-str': '[%r,]*%d' % (vals[0], nval),
+                'expression-str': 'sum(%r, [])' % ([[v] for v in vals],)}[form]
         want = vals if form != 'repeat-str' else [vals[0]] * nval
         m.AddExogenous('S', 'G', spec)
         m.AddInitialCondition('S', 'Y', icv)
@@ -40,6 +43,9 @@ def model_level_cases():
         except ValueError:
             if nval >= T + 1:
                 bad.append((T, form, nval, icv, 'rejected although long enough'))
+            continue
+        except Exception as e:
+            bad.append((T, form, nval, icv, 'main raises %r' % (e,)))
             continue
         if nval < T + 1:
             bad.append((T, form, nval, icv, 'accepted although too short'))
